@@ -165,7 +165,7 @@ func c16Codec(rep *Report) {
 			for a := 1; a <= lim; a++ {
 				check([]int{a}, fmt.Sprintf("split at %d", a))
 			}
-			if n <= 2 || n == 7 || n == 255 || thorough() && n%16 == 0 {
+			if n <= 2 || n == 7 || n == 255 || thorough() && (pi == 1 || n%16 == 0) {
 				for a := 1; a <= lim; a++ {
 					for bb := a + 1; bb <= lim; bb++ {
 						check([]int{a, bb}, fmt.Sprintf("splits at %d,%d", a, bb))
